@@ -379,7 +379,7 @@ Section Pass.
           destruct (ik_pc _ _ _ _ I4 p x3 Ex3) as [_ H]. specialize (H Hpc). congruence.
         * cbn. rewrite elem_of_app, elem_of_cons. tauto.
         * cbn. rewrite app_nil_r. split; [discriminate|tauto].
-        * cbn. discriminate.
+        * cbn. intros Hb3. pose proof (ik_box _ _ _ _ I4 p x3 Ex3 Hb3). congruence.
       + intros o y Ho Ey. apply elem_of_cons in Ho as [->|Ho].
         * rewrite Hself in Ey. injection Ey as <-. cbn. apply N.eqb_eq, Eq.
         * rewrite Hoth in Ey by (intros ->; tauto). eauto.
@@ -397,7 +397,7 @@ Section Pass.
           destruct (ik_pc _ _ _ _ I4 p x3 Ex3) as [_ H]. specialize (H Hpc). congruence.
         * cbn. rewrite elem_of_cons. tauto.
         * cbn. rewrite app_nil_r. split; [discriminate|tauto].
-        * cbn. discriminate.
+        * cbn. intros Hb3. pose proof (ik_box _ _ _ _ I4 p x3 Ex3 Hb3). congruence.
       + intros o y Ho Ey. rewrite Hoth in Ey by (intros ->; tauto). eauto.
       + intros o y Ho Ey. apply elem_of_cons in Ho as [->|Ho].
         * rewrite Hself in Ey. injection Ey as <-. cbn. apply N.eqb_neq, Eq.
